@@ -9,8 +9,17 @@ Record seen := mkSeen {
   n_cache : list (N * option (N * N * bool))  (* per server name: cached (version, suite, ems) after the connection *)
 }.
 
+(* a connection given by reference into the history's tables of specs and servers (keeps the case terms small) *)
+Record cref := mkRef {
+  r_sp : nat; r_sv : nat; r_sname : N; r_addr : N; r_now : N; r_omit : bool; r_skip : bool; r_suite : N; r_tlen : N
+}.
+Definition resolve (sps : list spec) (svs : list server) (r : cref) : conn :=
+  mkConn (nth (r_sp r) sps (mkSpec false [] [] [] [] [])) (r_sname r) (r_addr r)
+         (nth (r_sv r) svs (mkServer 0 [] [] [] 0 [])) (r_now r) (r_omit r) (r_skip r) (r_suite r) (r_tlen r).
+
 Inductive case :=
 | CHist (h : list (conn * seen))
+| CHistT (sps : list spec) (svs : list server) (h : list (cref * seen))
 | CPsk (label_lens binder_lens : list N) (suite ext_len pre post : N).
 
 Definition class_of (o : outcome) : N :=
@@ -48,6 +57,7 @@ Fixpoint check_hist (ca : cache) (h : list (conn * seen)) : bool :=
 Definition check (c : case) : bool :=
   match c with
   | CHist h => check_hist [] h
+  | CHistT sps svs h => check_hist [] (map (fun x => (resolve sps svs (fst x), snd x)) h)
   | CPsk ll bl suite ext_len pre post =>
       let ids := map (fun l => mkIdent (repeat 0 (N.to_nat l)) 0) ll in
       let bs := map (fun l => repeat 0 (N.to_nat l)) bl in
